@@ -276,27 +276,43 @@ HASH_ASSUMPTIONS = [
 ]
 
 
-def mk_hflow(vc, tag, nquery, form):
-    """flow + the parsed views the trusted parsers return for it"""
-    scheme, method = vc.sym_bytes(tag + "_scheme"), vc.sym_bytes(tag + "_method")
+def _ascii(vc, b):
     if vc.mode == "sym":
         import z3
-        asc = z3.Star(z3.Range(chr(0), chr(127)))
-        vc.assume(SBool(z3.InRe(scheme.t, asc)))
-        vc.assume(SBool(z3.InRe(method.t, asc)))
+        vc.assume(SBool(z3.InRe(b.t, z3.Star(z3.Range(chr(0), chr(127))))))
     else:
-        vc.assume(all(c < 128 for c in scheme + method))
+        vc.assume(all(c < 128 for c in b))
+    return b
+
+
+def _as_str(vc, b):
+    return SStr(b.t) if vc.mode == "sym" else b.decode("ascii")
+
+
+def upper_(vc, s):
+    if vc.mode == "native" or not is_sym(s):
+        return s.upper()
+    from pyvc import lib
+    import z3
+    return SStr(lib.uf("upper", z3.StringSort(), z3.StringSort())(s.t))
+
+
+def mk_hflow(vc, tag, nquery, form, with_header):
+    """flow + the parsed views the trusted parsers return for it"""
+    scheme, method = _ascii(vc, vc.sym_bytes(tag + "_scheme")), _ascii(vc, vc.sym_bytes(tag + "_method"))
     content = vc.sym_bytes(tag + "_content")
-    hval = vc.opt(tag + "_hdr", vc.sym_bytes(tag + "_hdr_v", maxlen=8))
     port = vc.sym_int(tag + "_port", lo=0, hi=65535)
+    hv = _ascii(vc, vc.sym_bytes(tag + "_hdr", maxlen=8)) if with_header else None
+    uniq = (lambda x: x) if vc.mode == "sym" else (lambda x: tag + "|" + x)     # natively: keep the two flows' texts apart
     v = dict(
-        scheme=scheme, method=method, content=content, port=port,
-        path=vc.sym_str(tag + "_path"), host=vc.sym_str(tag + "_host"), url=vc.sym_str(tag + "_url"), query=vc.sym_str(tag + "_query"),
+        scheme=scheme, method=method, content=content, port=port, hval=hv,
+        path=vc.sym_str(tag + "_path"), host=vc.sym_str(tag + "_host"), url=uniq(vc.sym_str(tag + "_url")), query=uniq(vc.sym_str(tag + "_query")),
         qsl=[(vc.sym_str(f"{tag}_qk{i}"), vc.sym_str(f"{tag}_qv{i}")) for i in range(nquery)],
         form=form,
-        fields=([(vc.sym_str(f"{tag}_fk0"), vc.sym_str(f"{tag}_fv0"))] if form == "urlencoded" else [(vc.sym_bytes(f"{tag}_fk0", maxlen=8), vc.sym_bytes(f"{tag}_fv0"))] if form == "multipart" else []),
+        fields=([(vc.sym_str(f"{tag}_fk0"), vc.sym_str(f"{tag}_fv0"))] if form == "urlencoded" else [(_ascii(vc, vc.sym_bytes(f"{tag}_fk0", maxlen=8)), vc.sym_bytes(f"{tag}_fv0"))] if form == "multipart" else []),
     )
-    req = mk_request(vc, host="wire-host", port=port, method=method, scheme=scheme, path=b"/wire", content=content, headers=mk_headers(vc, []))
+    req = mk_request(vc, host="wire-host", port=port, method=method, scheme=scheme, path=b"/wire", content=content,
+                     headers=mk_headers(vc, [(b"X-Match", hv)] if with_header else []))
     v["flow"] = mk_flow(vc, mk_client(vc, tag + "-c"), mk_server(vc, tag + "-s"), req, None)
     return v
 
@@ -306,7 +322,8 @@ def install_parsers(vc, views):
         return [x for x in views if x["flow"].request is r][0]
 
     def of(attr, val):
-        return [x for x in views if x[attr] is val][0]
+        m = [x for x in views if x[attr] is val] or [x for x in views if vc.mode == "native" and x[attr] == val]
+        return m[0]
 
     vc.summary("mitmproxy.http:Request.url", lambda v, r, *a: v.lift(of_req(r)["url"]))
     vc.summary("mitmproxy.http:Request.pretty_host", lambda v, r: v.lift(of_req(r)["host"]))
@@ -314,7 +331,6 @@ def install_parsers(vc, views):
     vc.summary("mitmproxy.http:Request._get_urlencoded_form", lambda v, r: v.lift(tuple(of_req(r)["fields"]) if of_req(r)["form"] == "urlencoded" else ()))
     vc.summary("urllib.parse:urlparse", lambda v, u, *a, **k: v.lift(("", "", of("url", u)["path"], "", of("url", u)["query"], "")))
     vc.summary("urllib.parse:parse_qsl", lambda v, q, *a, **k: v.lift(list(of("query", q)["qsl"])))
-    vc.summary("mitmproxy.http:Headers.get", lambda v, h, name, default=None: [x for x in views if x["flow"].request.data.headers is h][0]["hval_str"])
     if vc.mode == "sym":
         vc.summary("builtins:repr", lambda v, x: v.new("props.C52:KeyBox", items=x))
         vc.summary("_hashlib:openssl_sha256", lambda v, box, **k: v.new("props.C52:Sha", box=box))
@@ -322,18 +338,25 @@ def install_parsers(vc, views):
 
 @scenario("hash.equal_iff_keys_equal", functions=[SP + "._hash"])
 def s_hash(vc):
-    form = vc.case("form", ["none", "urlencoded", "multipart"])
-    ign_payload = vc.case("ignore_payload_params", [False, True])
-    ign_params = vc.case("ignore_params", [False, True])
-    use_headers = vc.case("use_headers", [False, True])
-    ign_content, ign_host, ign_port = vc.sym_bool("ignore_content"), vc.sym_bool("ignore_host"), vc.sym_bool("ignore_port")
+    """two requests hashed under the same options; one option group varies per case, the others are at their defaults"""
+    focus = vc.case("focus", ["query", "body", "host_port_headers"])
+    form, ign_payload, ign_params, use_headers, nq = "none", False, False, False, 0
+    ign_content = ign_host = ign_port = False
+    if focus == "query":
+        ign_params, nq = vc.case("ignore_params", [False, True]), 2
+    elif focus == "body":
+        form = vc.case("form", ["none", "urlencoded", "multipart"])
+        ign_payload = vc.case("ignore_payload_params", [False, True])
+        ign_content = vc.sym_bool("ignore_content")
+    else:
+        use_headers = vc.case("use_headers", [False, True])
+        ign_host, ign_port = vc.sym_bool("ignore_host"), vc.sym_bool("ignore_port")
     set_ctx(vc, server_replay_ignore_content=ign_content, server_replay_ignore_host=ign_host, server_replay_ignore_port=ign_port,
             server_replay_ignore_params=["skip"] if ign_params else [], server_replay_ignore_payload_params=["skip"] if ign_payload else [],
             server_replay_use_headers=["x-match"] if use_headers else [])
-    f, g = mk_hflow(vc, "f", 2, form), mk_hflow(vc, "g", 1, form)
-    for x in (f, g):
-        hv = vc.opt(("f" if x is f else "g") + "_hdr", vc.sym_str(("f" if x is f else "g") + "_hdr_s"))
-        x["hval_str"] = hv
+    hdr_f = use_headers and vc.case("f_has_header", [True, False])
+    hdr_g = use_headers and vc.case("g_has_header", [True, False])
+    f, g = mk_hflow(vc, "f", nq, form, hdr_f), mk_hflow(vc, "g", nq, form, hdr_g)
     install_parsers(vc, [f, g])
     addon = vc.new(SP, flowmap=vc.dict([]), configured=True)
     of_, og = vc.call(SP + "._hash", addon, f["flow"]), vc.call(SP + "._hash", addon, g["flow"])
@@ -344,24 +367,22 @@ def s_hash(vc):
 
     def spec_key(x):
         """the matching key of the statement, as a nested list with symbolic leaves"""
-        key = [x["scheme"], x["method"], x["path"]]
+        key = [_as_str(vc, x["scheme"]), upper_(vc, _as_str(vc, x["method"])), x["path"]]
         key.append([kv for kv in x["qsl"] if not (ign_params and vc.branch(kv[0] == "skip"))])
         key.append([] if vc.branch(ign_host) else [x["host"]])
         key.append([] if vc.branch(ign_port) else [x["port"]])
         if vc.branch(ign_content):
             key.append("no-body")
         elif ign_payload and form != "none":
-            def skipped(k):
-                return vc.branch(k == ("skip" if form == "urlencoded" else b"skip"))
-            key.append(["form"] + [kv for kv in x["fields"] if not skipped(kv[0])])
+            key.append(["form"] + [kv for kv in x["fields"] if not vc.branch(kv[0] == ("skip" if form == "urlencoded" else b"skip"))])
         else:
             key.append(["raw", x["content"]])
-        key.append([x["hval_str"]] if use_headers else [])
+        key.append([] if not use_headers else [None] if x["hval"] is None else [_as_str(vc, x["hval"])])
         return key
 
     kf, kg = spec_key(f), spec_key(g)
     if vc.mode == "sym":
-        # trusted facts about str(bytes) (see HASH_ASSUMPTIONS)
+        # trusted fact about str(bytes) (see HASH_ASSUMPTIONS)
         from pyvc import lib
         import z3
         rb = lib.uf("repr_bytes", z3.StringSort(), z3.StringSort())
@@ -383,3 +404,177 @@ def deep_eq(vc, a, b):
     if isinstance(a, (list, tuple)) or isinstance(b, (list, tuple)):
         return False
     return vc.eq(a, b)
+
+
+ASSUMPTIONS = HASH_ASSUMPTIONS + [
+    "next_flow / add_flows / load_flows / recompute_hashes / request / count: ServerPlayback._hash is an arbitrary function of the flow (its contract is scenario hash.equal_iff_keys_equal); lists per key have <= 3 recordings, two keys (each key's list is handled independently of the others)",
+    "request: Response.copy (Serializable.copy) returns a distinct object with the same content, Response.refresh and Response.make are abstracted to recorded calls; mitmproxy.ctx.options / ctx.master are the scenario's objects",
+    "hash.equal_iff_keys_equal: option groups vary one at a time (query / body / host+port+headers), <= 2 query pairs, <= 1 form field per request; header, scheme, method and multipart field names ASCII",
+]
+
+
+# =============================================================================================
+# T2 (bounded): the real addon on recorded sets x request sequences x option settings and changes
+
+def _ref_key(v, o):
+    """matching key of the statement for a request variant v (dict) under option setting o (dict)"""
+    from urllib.parse import urlsplit, parse_qsl
+    sp = urlsplit("http://h" + v["path"])
+    key = [v["scheme"], v["method"].upper(), sp.path]
+    key.append([kv for kv in parse_qsl(sp.query, keep_blank_values=True) if kv[0] not in o.get("server_replay_ignore_params", [])])
+    if not o.get("server_replay_ignore_host"):
+        key.append(("host", v["host"]))
+    if not o.get("server_replay_ignore_port"):
+        key.append(("port", v["port"]))
+    if not o.get("server_replay_ignore_content"):
+        ign = o.get("server_replay_ignore_payload_params", [])
+        if ign and v["form"]:
+            key.append(("form", [kv for kv in parse_qsl(v["content"].decode(), keep_blank_values=True) if kv[0] not in ign]))
+        else:
+            key.append(("raw", v["content"]))
+    key.append([(h, v["headers"].get(h)) for h in o.get("server_replay_use_headers", [])])
+    return repr(key)
+
+
+def bounded(tier, seed):
+    import asyncio
+    import itertools
+    import random
+
+    from mitmproxy import http
+    from mitmproxy.addons import serverplayback
+    from mitmproxy.test import taddons, tflow, tutils
+
+    b = Bounded()
+    base = dict(scheme="http", method="GET", path="/a?x=1", host="h1", port=80, content=b"", form=False, headers={})
+    variants = [
+        base,
+        dict(base, path="/a?x=2"),
+        dict(base, path="/a?x=1&skip=9"),
+        dict(base, path="/b?x=1"),
+        dict(base, host="h2"),
+        dict(base, port=81),
+        dict(base, method="POST", content=b"k=v&skip=1", form=True),
+        dict(base, method="POST", content=b"k=v&skip=2", form=True),
+        dict(base, headers={"x-match": "a"}),
+        dict(base, headers={"x-match": "b"}),
+        dict(base, scheme="https"),
+    ]
+    settings = [
+        {},
+        {"server_replay_ignore_params": ["skip"]},
+        {"server_replay_ignore_params": ["x", "skip"]},
+        {"server_replay_ignore_host": True},
+        {"server_replay_ignore_port": True, "server_replay_ignore_host": True},
+        {"server_replay_ignore_content": True},
+        {"server_replay_ignore_payload_params": ["skip"]},
+        {"server_replay_use_headers": ["x-match"]},
+        {"server_replay_reuse": True},
+        {"server_replay_extra": "kill"},
+        {"server_replay_extra": "404"},
+        {"server_replay_kill_extra": True, "server_replay_ignore_params": ["skip"]},
+    ]
+    defaults = dict(server_replay_ignore_params=[], server_replay_ignore_host=False, server_replay_ignore_port=False, server_replay_ignore_content=False,
+                    server_replay_ignore_payload_params=[], server_replay_use_headers=[], server_replay_reuse=False, server_replay_extra="forward",
+                    server_replay_kill_extra=False, server_replay_refresh=False)
+    nrec, nreq = (3, 3)
+    b.rule = ("recorded sets (<= 3 recordings over 11 request variants with colliding / near-colliding keys, each with or without response) x request sequences (<= 3) x "
+              "12 option settings, with an option change (re-index) after the first request; judged by a reference replay (first unserved recording with a response whose "
+              "statement key equals the request's, in recording order; forward/kill/status otherwise; count of remaining recordings); distinct = history; "
+              "non-trivial = at least one request is answered from a recording")
+    b.bound = "recordings <= 3, requests <= 3, one option change"
+    rnd = random.Random(seed)
+    budget = 2500 if tier == "quick" else 60000
+    # directed: r0 and r2 share a key, r1 differs only in an ignorable parameter; ignoring it after the first request
+    # makes all three share a key (re-index)
+    histories = [(((0, True), (2, True), (0, True)), (3, 0, 0), 0, 1)]
+    vi = list(range(len(variants)))
+    while len(histories) < budget:
+        recs = [(rnd.choice(vi[:4] if rnd.random() < 0.6 else vi), rnd.random() < 0.8) for _ in range(rnd.randint(1, nrec))]
+        reqs = [rnd.choice([r[0] for r in recs] + vi[:3]) for _ in range(rnd.randint(1, nreq))]
+        s1 = rnd.randrange(len(settings))
+        s2 = rnd.choice([None, None, rnd.randrange(len(settings))])
+        histories.append((tuple(recs), tuple(reqs), s1, s2))
+
+    def mk(v, with_resp, marker):
+        hdrs = [(b"content-type", b"application/x-www-form-urlencoded")] if v["form"] else []
+        hdrs += [(k.encode(), val.encode()) for k, val in v["headers"].items()]
+        req = tutils.treq(scheme=v["scheme"].encode(), method=v["method"].encode(), path=v["path"].encode(), host=v["host"], port=v["port"],
+                          content=v["content"], headers=http.Headers(hdrs))
+        resp = tutils.tresp(content=marker) if with_resp else None
+        f = tflow.tflow(req=req, resp=resp) if with_resp else tflow.tflow(req=req)
+        if not with_resp:
+            f.response = None
+        return f
+
+    async def run():
+        sp = serverplayback.ServerPlayback()
+        with taddons.context(sp) as tctx:
+            for recs, reqs, s1, s2 in histories:
+                opts = dict(defaults, **settings[s1])
+                tctx.configure(sp, **opts)
+                flows = [mk(variants[vi_], wr, b"resp-%d" % i) for i, (vi_, wr) in enumerate(recs)]
+                sp.load_flows(flows)
+                unserved = list(range(len(recs)))
+                inp = {"recordings": [[variants[v]["method"], variants[v]["host"], variants[v]["port"], variants[v]["path"], variants[v]["content"].decode(), variants[v]["headers"], wr] for v, wr in recs],
+                       "requests": [list(map(str, (variants[v]["method"], variants[v]["host"], variants[v]["port"], variants[v]["path"], variants[v]["content"].decode(), variants[v]["headers"]))) for v in reqs],
+                       "options": settings[s1], "then": None if s2 is None else settings[s2]}
+                answered = False
+                changed = False
+                if sp.count() != len(unserved):
+                    b.fail("replay.count_after_load", inp, f"{sp.count()} != {len(unserved)}")
+                for n, qv in enumerate(reqs):
+                    if n == 1 and s2 is not None:
+                        opts = dict(defaults, **settings[s2])
+                        tctx.configure(sp, **opts)
+                        changed = True
+                        if sp.count() != len(unserved):
+                            b.fail("replay.reindex_loses_or_duplicates", inp, f"count {sp.count()} != {len(unserved)}")
+                    q = mk(variants[qv], False, b"")
+                    qk = _ref_key(variants[qv], opts)
+                    cands = [i for i in unserved if _ref_key(variants[recs[i][0]], opts) == qk]
+                    withresp = [i for i in cands if recs[i][1]]
+                    exp = withresp[0] if withresp else None
+                    reuse = opts["server_replay_reuse"]
+                    sp.request(q)
+                    got = None
+                    if q.response is not None and q.response.content.startswith(b"resp-"):
+                        got = int(q.response.content[5:])
+                    if got is not None:
+                        answered = True
+                        if got not in cands:
+                            b.fail("replay.only_matching_key_or_unserved", inp, f"request {n} answered from recording {got}, candidates {cands}")
+                        elif got != exp:
+                            b.fail("replay.recording_order_after_option_change[KF-C52-1]" if changed else "replay.recording_order", inp, f"request {n}: recording {got} served, expected {exp}")
+                        if q.response is flows[got].response:
+                            b.fail("replay.response_is_a_copy", inp, f"request {n}")
+                        if q.is_replay != "response":
+                            b.fail("replay.marked", inp, f"request {n}: is_replay={q.is_replay}")
+                    elif exp is not None:
+                        b.fail("replay.matching_request_answered", inp, f"request {n}: expected recording {exp}, got response={q.response} error={q.error}")
+                    else:
+                        extra = "kill" if opts["server_replay_kill_extra"] else opts["server_replay_extra"]
+                        live_map = bool(sp.flowmap) or bool(unserved)
+                        if not unserved:
+                            extra = "forward"       # replay inactive: request passes untouched
+                        if extra == "forward" and (q.response is not None or q.error is not None):
+                            b.fail("replay.unmatched_forwarded", inp, f"request {n}: response={q.response} error={q.error}")
+                        if extra == "kill" and (q.error is None or q.response is not None):
+                            b.fail("replay.unmatched_killed", inp, f"request {n}: response={q.response} error={q.error}")
+                        if extra.isdigit() and (q.response is None or q.response.status_code != int(extra)):
+                            b.fail("replay.unmatched_status", inp, f"request {n}: response={q.response}")
+                    # bookkeeping follows what the code served (deviations were reported above)
+                    if not reuse:
+                        served = got if got is not None else None
+                        if served is not None:
+                            drop = [i for i in cands if i <= served and not recs[i][1]] + [served]
+                        else:
+                            drop = list(cands)
+                        unserved = [i for i in unserved if i not in drop]
+                    if sp.count() != len(unserved):
+                        b.fail("replay.count", inp, f"after request {n}: count {sp.count()} != {len(unserved)}")
+                        unserved = unserved[: sp.count()]
+                b.case((recs, reqs, s1, s2), nontrivial=answered)
+
+    asyncio.run(run())
+    return b
